@@ -12,6 +12,8 @@ import AkdModel.Adv
 import AkdModel.Spec
 import AkdModel.Store
 import AkdModel.AdvDir
+import AkdModel.Proto
+import AkdModel.Blob
 open Akd Akd.Wire
 
 structure DState where
@@ -278,6 +280,17 @@ def stepL1 (st : DState) (toks : List String) : Option (DState × String) :=
     match st.dir.nodes.batchInsert c m a els with
     | .ok (ns, a') => some ({ st with dir := { st.dir with nodes := ns, azks := some a' } }, s!"ok {a'.latestEpoch} {a'.numNodes}")
     | .error _ => some (st, "err")
+  | ["pb.dec", ty, h] => do
+    let ty ← Proto.tyOfName? ty
+    let bs ← parseHex? h
+    match Proto.roundtripBytes ty bs with
+    | none => some (st, "err-parse")
+    | some none => some (st, "err-conv")
+    | some (some out) => some (st, "ok " ++ hexOfBytes out)
+  | ["pb.blobname", n] =>
+    match Blob.parse? (if n == "-" then "" else n) with
+    | some b => some (st, "ok " ++ Blob.render b)
+    | none => some (st, "err")
   | ["perm.group", _] => some (st, "ok")
   | ["perm.end"] => some (st, "ok")
   | ["azks.setepoch", e] => do
@@ -465,9 +478,12 @@ def step (st : DState) (line : String) : DState × String :=
       | some (p, f) => (st, s!"{showNats p} {showNats f}")
       | none => (st, "panic")
     | _, _, _ => (st, "bad-op")
-  | _ => match stepL1 st toks with
-    | some r => r
-    | none => (st, "bad-op")
+  | t :: _ =>
+    if t.startsWith "o." then (st, "-")
+    else match stepL1 st toks with
+      | some r => r
+      | none => (st, "bad-op")
+  | [] => (st, "bad-op")
 
 partial def loop (h : IO.FS.Stream) (out : IO.FS.Stream) (st : DState) : IO Unit := do
   let line ← h.getLine
